@@ -172,6 +172,12 @@ def c16(work, tier, seed, replay):
     out.violations += ov.violations
     out.coverage["overlap"] = {"scripts": nov, "evaluations": ov.coverage.get("evaluations"), "rule": "every answer (handshake, tunnel, authorisation, channel, close) held between being built and being "
                                "written while another tunnel's request is handled completely: type, length, fields and status are still those of the own request"}
+    import fam_stream as fstr
+    sout = fstr.c16_stream(work, tier, seed, design)
+    out.violations += sout.violations
+    out.coverage["stalled_stream"] = {"scripts": sout.coverage.get("traces_validated_against_impl"), "evaluations": sout.coverage.get("evaluations"),
+                                      "rule": "the host streams 24 MiB while the client does not read for 12 s (thorough: up to 33 s) and then reads on, both transports: every packet sent is a well-formed data packet "
+                                              "whose length is that of the bytes sent, and so are the packets after it"}
     out.coverage["rule"] = ("all 128 redirect-switch combinations x idle-timeout classes x capability settings, one gateway instance per configuration, "
                             "8 request outcomes each (accepted, wrong phase, denied host, unreachable host, capability mismatch, bad cookie, repeated step, early close); "
                             "raw responses decoded by the harness's independent MS-TSGU decoder; verdict by TLC (G_C16_*)")
